@@ -22,14 +22,14 @@ run() { # name prop patchfile expect(violation|clean)
 }
 for w in $what; do case $w in
 seeds)
-  for d in seeded/*/; do s=$(basename $d); p=$(python3 -c "import json;print(json.load(open('$d/meta.json'))['property'])"); run $s $p $d/patch.diff violation; done;;
+  for d in seeded/*/; do s=$(basename $d); p=$(python3 -c "import json;print(json.load(open('$d/meta.json'))['property'])"); run $s $p /verif/$d/patch.diff violation; done;;
 reverts)
-  grep '^fixed:' known_findings.txt | while read -r _ prop hash rest; do
+  while read -r _ prop hash rest; do
     p=${prop#property=}; tmp=/verif/out/revert-$hash.diff
     git -C /repo diff $hash $hash^ > $tmp
     run revert-$hash $p $tmp violation
-  done;;
+  done < <(grep '^fixed:' known_findings.txt);;
 harmless)
-  for f in selftest/harmless/*.diff; do n=$(basename $f .diff); p=$(head -1 selftest/harmless/$n.txt); run $n $p $f clean; done;;
+  for f in /verif/selftest/harmless/*.diff; do n=$(basename $f .diff); p=$(head -1 /verif/selftest/harmless/$n.txt); run $n $p $f clean; done;;
 esac; done
 exit $fail
